@@ -138,4 +138,150 @@ func init() {
 		},
 		RequiredReach: []string{"c01_ok_password", "c01_ok_otp", "c01_ok_rm", "c01_ok_recover", "c01_ok_oauth2", "c01_ok_register", "c01_ok_2fa_pending"},
 	})
+
+	withW := func(base map[string]int, over map[string]int) map[string]int {
+		m := map[string]int{}
+		for k, v := range base {
+			m[k] = v
+		}
+		for k, v := range over {
+			m[k] = v
+		}
+		return m
+	}
+	anyReach := func(prefix string) func(s *Stats) bool {
+		return func(s *Stats) bool {
+			for k, v := range s.Reach {
+				if strings.HasPrefix(k, prefix) && v > 0 {
+					return true
+				}
+			}
+			return false
+		}
+	}
+	register(&Profile{
+		ID: "C12",
+		Config: func(r *Rng, tier string) Config {
+			c := baseConfig(r)
+			c.dropSetups("expire")
+			c.ensureModules("otp", "logout")
+			c.ensureSetups("totp", "sms", "recovery")
+			c.EmailAuth2FA = false
+			if r.Chance(2, 3) {
+				c.dropModules("lock")
+			}
+			c.dropModules("confirm", "oauth2")
+			for i := range c.Accounts {
+				if c.Accounts[i].OTPs == 0 && r.Bool() {
+					c.Accounts[i].OTPs = 1 + r.Intn(4)
+				}
+				if !c.Accounts[i].TOTP && !c.Accounts[i].SMS && r.Bool() {
+					if r.Bool() {
+						c.Accounts[i].TOTP = true
+					} else {
+						c.Accounts[i].SMS = true
+					}
+				}
+			}
+			return c
+		},
+		Gen: func(r *Rng, tier string) *genProfile {
+			return &genProfile{MaxSteps: steps(tier, 40, 100), Default: 0, FollowUp: 70, Template: 25,
+				Templates: []string{"otp_flow", "login_ok", "otp_fill"},
+				Weights: withW(loginWeights, map[string]int{"otp_login": 20, "otp_add": 10, "otp_clear": 2, "replay": 12, "totp_validate": 8, "sms_validate": 8,
+					"recovery_regen": 3, "totp_remove": 2, "sms_remove": 2, "register": 0, "recover_start": 0, "recover_end": 0, "confirm": 0, "oauth2_start": 0, "oauth2_callback": 0,
+					"advance": 6}),
+				BadSecret: 40, ThreshGaps: 10, SmallGaps: 25,
+				Thresholds: func(c *Config) []time.Duration {
+					return []time.Duration{10 * time.Second, 30 * time.Second, 30 * time.Second}
+				}}
+		},
+		Oracle:        newC12Oracle,
+		Nontrivial:    anyReach("c12_"),
+		RequiredReach: []string{"c12_otp_accepted", "c12_spent_otp_rejected", "c12_recovery_accepted", "c12_spent_recovery_rejected", "c12_sms_accepted", "c12_totp_accepted", "c12_totp_repeat_rejected"},
+	})
+	register(&Profile{
+		ID: "C07",
+		Config: func(r *Rng, tier string) Config {
+			c := baseConfig(r)
+			c.dropSetups("expire")
+			c.ensureModules("remember", "logout")
+			c.EmailAuth2FA = false
+			c.OddPIDs = r.Bool()
+			if r.Chance(2, 3) {
+				c.dropModules("lock")
+			}
+			if r.Chance(2, 3) {
+				c.dropModules("confirm")
+			}
+			return c
+		},
+		Gen: func(r *Rng, tier string) *genProfile {
+			return &genProfile{MaxSteps: steps(tier, 40, 100), Default: 0, FollowUp: 60, Template: 40,
+				Templates: []string{"remember_cycle", "remember_cycle", "oauth_remember", "recover_flow", "login_ok"},
+				Weights: withW(loginWeights, map[string]int{"probe": 14, "drop_session": 10, "copy_cookie": 5, "stale_cookie": 7, "set_cookie": 3, "logout": 6,
+					"op_update_password": 3, "register": 1, "confirm": 1}),
+				BadSecret: 30, ThreshGaps: 5, SmallGaps: 20}
+		},
+		Oracle:        newC07Oracle,
+		Nontrivial:    anyReach("c07_cookie_"),
+		RequiredReach: []string{"c07_cookie_authenticated", "c07_cookie_issued", "c07_dead_cookie_refused_spent", "c07_dead_cookie_refused_unknown", "c07_dead_cookie_refused_revoked", "c07_halfauth_cleared"},
+	})
+	register(&Profile{
+		ID: "C06",
+		Config: func(r *Rng, tier string) Config {
+			c := baseConfig(r)
+			c.dropSetups("expire")
+			c.ensureModules("recover")
+			if r.Chance(3, 4) {
+				c.ensureModules("remember")
+			}
+			c.EmailAuth2FA = false
+			if r.Chance(2, 3) {
+				c.dropModules("lock")
+			}
+			if r.Chance(2, 3) {
+				c.dropModules("confirm")
+			}
+			return c
+		},
+		Gen: func(r *Rng, tier string) *genProfile {
+			return &genProfile{MaxSteps: steps(tier, 40, 100), Default: 0, FollowUp: 60, Template: 45,
+				Templates: []string{"recover_flow", "recover_flow", "remember_then_reset", "remember_cycle", "op_reset"},
+				Weights: withW(loginWeights, map[string]int{"recover_start": 8, "recover_end": 10, "op_update_password": 8, "probe": 10, "drop_session": 6,
+					"stale_cookie": 6, "copy_cookie": 3, "oauth2_start": 1, "oauth2_callback": 1}),
+				BadSecret: 30, ThreshGaps: 8, SmallGaps: 20}
+		},
+		Oracle:        newC06Oracle,
+		Nontrivial:    anyReach("c06_change_"),
+		RequiredReach: []string{"c06_change_recover_end", "c06_change_op_update_password", "c06_tokens_revoked", "c06_old_password_refused", "c06_new_password_accepted", "c06_revoked_cookie_refused"},
+	})
+	register(&Profile{
+		ID: "C05",
+		Config: func(r *Rng, tier string) Config {
+			c := baseConfig(r)
+			c.dropSetups("expire")
+			c.ensureModules("recover", "confirm")
+			c.EmailAuth2FA = false
+			if r.Chance(2, 3) {
+				c.dropModules("lock")
+			}
+			c.RecoverDur = []time.Duration{5 * time.Second, time.Minute, time.Hour, 24 * time.Hour}[r.Intn(4)]
+			for i := range c.Accounts {
+				c.Accounts[i].Confirmed = r.Bool()
+			}
+			return c
+		},
+		Gen: func(r *Rng, tier string) *genProfile {
+			return &genProfile{MaxSteps: steps(tier, 45, 120), Default: 0, FollowUp: 40, Template: 45,
+				Templates: []string{"recover_flow", "confirm_flow", "token_near_miss", "token_near_miss", "register_flow"},
+				Weights: withW(loginWeights, map[string]int{"recover_start": 10, "recover_end": 14, "confirm": 14, "op_start_confirm": 8, "register": 5, "replay": 6,
+					"recover_end_get": 2, "oauth2_start": 0, "oauth2_callback": 0, "otp_login": 1, "totp_validate": 1, "sms_validate": 1}),
+				BadSecret: 55, ThreshGaps: 25, SmallGaps: 20,
+				Thresholds: func(c *Config) []time.Duration { return []time.Duration{c.RecoverDur} }}
+		},
+		Oracle:        newC05Oracle,
+		Nontrivial:    anyReach("c05_"),
+		RequiredReach: []string{"c05_confirm_accepted", "c05_recover_accepted", "c05_genuine_usable_after_rejects", "c05_rejected_recover_expired", "c05_rejected_recover_superseded", "c05_rejected_recover_spent", "c05_rejected_confirm_spent", "c05_rejected_confirm_unknown", "c05_rejected_recover_unknown"},
+	})
 }
